@@ -1,0 +1,13 @@
+//go:build verif
+
+package sessions
+
+// VerifNewAckqueue creates an ack queue with the given initial capacity.
+func VerifNewAckqueue(n int) *Ackqueue { return newAckqueue(n) }
+
+// VerifShape returns size, count, head and tail of the ring.
+func (aq *Ackqueue) VerifShape() (size, count, head, tail int64) {
+	aq.mu.Lock()
+	defer aq.mu.Unlock()
+	return aq.size, aq.count, aq.head, aq.tail
+}
